@@ -65,6 +65,15 @@ CIQ sub-checks (C11|ciq-<name>|<entry point>|<symptom>)
             quadrature: 64 n u relative.
   twice     S(S(R)) = A^{-1} R with (eta_1 + eta_2 (1 + eta_1)) ||R|| / lambda_min, eta = the relative bound of each call.
   invquad   left-factor variant: second output = diag(L A^{-1} L^T), tolerance ||L_o||^2 B_0 / lambda_min.
+
+Findings re-found by this check (witnesses in corpus/C11, triggers in TRIGGERS; the generator normalises exactly these
+features while the finding is open -- PROPOSED_OPEN until known_findings.json carries the entries; LOV_C11_NO_AVOID=1
+switches the avoidance off for adjudication):
+  f32_exact_breakdown_zero_shift       float32 + exact Lanczos breakdown (n = 1, eigenvector rhs, K = cI) + a zero shift -> NaN
+  ciq_preconditioner_active            AddedDiag with an active preconditioner: non-symmetric root, wrong second output
+  identity_lhs_operator_batch_dropped  IdentityLinearOperator.sqrt_inv_matmul(rhs, lhs) ignores the operator batch shape
+Mutants killed (DESIGN M): cos_prev1/cos_prev2 swap (minres-residual), masked_fill dropped (minres-zero), shift_offset sign
+(ciq-nodes), weights without dn (ciq-nodes), inv_quad without mul_(-1) (ciq-algebra); also sin swap, squeeze rule, rhs norm.
 """
 import contextlib
 import importlib
